@@ -1,27 +1,374 @@
-//! C04 — not built yet (stub so that the binary links; `./check C04` reports INFRA until replaced).
+//! C04 — constants are immutable and pure functions stay pure (planted-fault search: a generated well-typed base
+//! program + one forbidden construct at a generated placement must be rejected with a type error; the legal twin of
+//! the same plant at the same place must stay accepted).
+use crate::common::*;
 use arbitrary::Unstructured;
-use vcore::{Check, Labels, Plan, Tier, Verdict};
+use serde::{Deserialize, Serialize};
+use std::collections::BTreeMap;
+use syltmodel::gen::{Gen, GenCfg};
+use syltmodel::print::Plan as SurfacePlan;
+use vcore::{compile, Check, Labels, Outcome, Plan, Project, Stats, Step, Tape, Tier, Verdict};
 
-pub struct Stub;
-pub const CHECK: Stub = Stub;
-pub fn plan(_t: Tier) -> Plan {
-    Plan::new(1, 16)
+#[path = "c04_plant.rs"]
+mod cat;
+#[path = "c04_kinds.rs"]
+mod kinds;
+use cat::{Sel, V3, EMARK, SMARK};
+
+pub struct C04;
+pub const CHECK: C04 = C04;
+pub fn plan(t: Tier) -> Plan {
+    Plan::new(t.pick(4_000, 80_000), t.pick(2600, 4000))
 }
-impl Check for Stub {
-    type Case = u8;
+
+#[derive(Clone, Serialize, Deserialize)]
+pub struct Case {
+    /// base program with the marker nodes (`@@C04S@@` statement / `@@C04E@@` expression) at the planted place
+    pub prog: ProgCase,
+    /// text substituted for the statement marker (base: nothing)
+    pub stmt: V3,
+    /// text substituted for the expression marker
+    pub expr: V3,
+    /// text prepended to the file rendered from `prog` (imports, planted globals)
+    pub prelude: V3,
+    /// second file of the project
+    pub other: Option<(String, V3)>,
+    pub prog_path: String,
+    pub main: String,
+    pub kind: String,
+    pub variant: String,
+    pub via: String,
+    pub nest: Vec<String>,
+    pub depth: usize,
+    pub placement: String,
+    pub mode: String,
+    pub expect: String,
+    /// generated with the known-finding avoidance switches off
+    pub raw: bool,
+    /// the violating project as generated, for human readers (re-rendered on evaluation)
+    #[serde(default)]
+    pub bad_files: BTreeMap<String, String>,
+}
+
+#[derive(Clone, Copy, PartialEq)]
+enum Which {
+    Base,
+    Twin,
+    Bad,
+}
+fn pick<'a>(v: &'a V3, w: Which) -> &'a str {
+    match w {
+        Which::Base => &v.base,
+        Which::Twin => &v.twin,
+        Which::Bad => &v.bad,
+    }
+}
+
+fn marker_count(case: &Case) -> (usize, usize) {
+    let text = render(&case.prog.prog, &case.prog.plan).text;
+    (text.matches(SMARK).count(), text.matches(EMARK).count())
+}
+
+fn project(case: &Case, rendered: &str, w: Which) -> Project {
+    let body = subst(&subst(rendered, SMARK, pick(&case.stmt, w)), EMARK, pick(&case.expr, w));
+    let mut files = BTreeMap::new();
+    files.insert(case.prog_path.clone(), format!("{}{}", pick(&case.prelude, w), body));
+    if let Some((path, v)) = &case.other {
+        files.insert(path.clone(), pick(v, w).to_string());
+    }
+    Project { files, main: case.main.clone(), std: true, require: None }
+}
+
+/// replace the marker by `text`, continuation lines indented like the line that carries the marker
+fn subst(rendered: &str, marker: &str, text: &str) -> String {
+    let pos = match rendered.find(marker) {
+        Some(p) => p,
+        None => return rendered.to_string(),
+    };
+    let line_start = rendered[..pos].rfind('\n').map(|i| i + 1).unwrap_or(0);
+    let indent: String = rendered[line_start..pos].chars().take_while(|c| *c == ' ' || *c == '\t').collect();
+    let mut out = String::new();
+    for (i, l) in text.lines().enumerate() {
+        if i > 0 {
+            out.push('\n');
+            out.push_str(&indent);
+        }
+        out.push_str(l);
+    }
+    format!("{}{}{}", &rendered[..pos], out, &rendered[pos + marker.len()..])
+}
+
+fn show(p: &Project) -> String {
+    let mut s = String::new();
+    for (path, text) in &p.files {
+        s.push_str(&format!("--- {} ---\n{}", path, text));
+        if !text.ends_with('\n') {
+            s.push('\n');
+        }
+    }
+    s
+}
+
+/// signature class: what stands between the enclosing function and the planted construct
+fn nest_class(case: &Case) -> &'static str {
+    let closure = case.nest.iter().any(|n| n.contains("closure") || n.contains("lambda"));
+    if closure {
+        "through-closure"
+    } else if case.depth > 0 {
+        "nested-block"
+    } else {
+        "direct"
+    }
+}
+
+fn signature(case: &Case) -> String {
+    if case.kind == "pu-launder" {
+        return "C04/accepted/pu-type/via-fn-annotation".to_string();
+    }
+    let v = case.variant.split(':').next().unwrap_or("");
+    format!("C04/accepted/{}/{}/{}", case.kind, v, nest_class(case))
+}
+
+impl Check for C04 {
+    type Case = Case;
     fn id(&self) -> &'static str {
         "C04"
     }
-    fn generate(&self, _u: &mut Unstructured, _tier: Tier) -> Option<u8> {
-        None
+
+    fn generate(&self, u: &mut Unstructured, tier: Tier) -> Option<Case> {
+        let mut t = Tape::new(u);
+        // all plant choices are drawn before the base program so that they do not depend on how much tape it eats
+        let mut sel = Sel { b: (0..48).map(|_| t.byte()).collect(), i: 0 };
+        // 20 % of the budget runs with the known-finding avoidance switch off (hits are classified by signature)
+        let raw = sel.chance(1, 5) && std::env::var("C04_AVOID").is_err();
+        let cfg = GenCfg::core(tier == Tier::Thorough);
+        let prog = Gen::new(&mut t, cfg).program();
+        let b = kinds::build(&mut sel, &prog, raw)?;
+        let plan = SurfacePlan::default();
+        let source = render(&b.prog, &plan).text;
+        let mut case = Case {
+            prog: ProgCase { prog: b.prog, plan, source },
+            stmt: b.stmt,
+            expr: b.expr,
+            prelude: b.prelude,
+            other: b.other,
+            prog_path: b.prog_path,
+            main: b.main,
+            kind: b.kind.to_string(),
+            variant: b.variant,
+            via: b.via.to_string(),
+            nest: b.nest.iter().map(|s| s.to_string()).collect(),
+            depth: b.depth,
+            placement: b.placement,
+            mode: b.mode.to_string(),
+            expect: b.expect.to_string(),
+            raw,
+            bad_files: BTreeMap::new(),
+        };
+        case.bad_files = project(&case, &case.prog.source, Which::Bad).files;
+        Some(case)
     }
-    fn evaluate(&self, _case: &u8, _labels: &mut Labels) -> Verdict {
-        Verdict::Discard("stub".into())
+
+    fn evaluate(&self, case: &Case, labels: &mut Labels) -> Verdict {
+        let rendered = render(&case.prog.prog, &case.prog.plan).text;
+        // the shrinker may have removed the block that carried the marker
+        let (ns, ne) = (rendered.matches(SMARK).count(), rendered.matches(EMARK).count());
+        let need_s = !case.stmt.bad.is_empty() || !case.stmt.twin.is_empty();
+        let need_e = !case.expr.bad.is_empty();
+        if (need_s && ns != 1) || (need_e && ne != 1) || (!need_s && ns != 0) || (!need_e && ne != 0) {
+            return Verdict::Discard("marker-lost".into());
+        }
+        let depth = case.depth.min(5);
+        labels.add(format!("kind:{}", case.kind));
+        labels.add(format!("cell:{}:{}", case.kind, depth));
+        labels.add(format!("depth:{}", depth));
+        labels.add(format!("variant:{}/{}", case.kind, case.variant.split(':').next().unwrap_or("")));
+        labels.add(format!("placement:{}", case.placement));
+        labels.add(format!("mode:{}", case.mode));
+        if !case.via.is_empty() {
+            labels.add(format!("via:{}", case.via));
+        }
+        for n in &case.nest {
+            labels.add(format!("nest:{}", n));
+        }
+        if case.raw {
+            labels.add("avoidance-off");
+        }
+
+        let base = compile(&project(case, &rendered, Which::Base));
+        match &base {
+            Outcome::Accepted(_) => {}
+            Outcome::Rejected { errors, .. } => {
+                labels.add(format!("base-rejected:{}:{}", errors[0].kind, errors[0].sub));
+                return Verdict::Discard("base-rejected".into());
+            }
+            Outcome::Panicked { .. } => return Verdict::Discard("compiler-panicked".into()),
+        }
+        let twin_p = project(case, &rendered, Which::Twin);
+        let twin = compile(&twin_p);
+        match &twin {
+            Outcome::Accepted(_) => {}
+            Outcome::Rejected { errors, .. } => {
+                labels.add(format!("twin-rejected:{}:{}:{}", case.kind, errors[0].kind, errors[0].sub));
+                if let Ok(d) = std::env::var("C04_SAVE_TWIN") {
+                    let _ = std::fs::create_dir_all(&d);
+                    let _ = std::fs::write(
+                        format!("{}/twin_{}_{:x}.sy", d, case.kind, vcore::hash64(&show(&twin_p))),
+                        format!("// {} {} {}\n// {}\n{}", case.kind, case.variant, case.mode, twin.short(), show(&twin_p)),
+                    );
+                }
+                return Verdict::Discard("twin-rejected".into());
+            }
+            Outcome::Panicked { .. } => return Verdict::Discard("compiler-panicked".into()),
+        }
+        let bad_p = project(case, &rendered, Which::Bad);
+        let bad = compile(&bad_p);
+        let nontrivial = case.depth >= 1 || !case.via.is_empty();
+        match &bad {
+            Outcome::Rejected { errors, bytes_written } => {
+                if *bytes_written != 0 {
+                    return Verdict::Violation {
+                        signature: format!("C04/bytes-written-on-reject/{}", case.kind),
+                        detail: format!("rejected ({}) but {} bytes of Lua were written\n{}", bad.short(), bytes_written, show(&bad_p)),
+                    };
+                }
+                let e = &errors[0];
+                if e.kind != "Type" {
+                    // the plant is malformed (syntax / name resolution): generator problem, not a verdict
+                    labels.add(format!("bad-not-type-error:{}:{}", case.kind, e.kind));
+                    if let Ok(d) = std::env::var("C04_SAVE_TWIN") {
+                        let _ = std::fs::create_dir_all(&d);
+                        let _ = std::fs::write(format!("{}/nontype_{}_{:x}.sy", d, case.kind, vcore::hash64(&show(&bad_p))), format!("// {}\n{}", bad.short(), show(&bad_p)));
+                    }
+                    return Verdict::Discard("violation-variant-not-a-type-error".into());
+                }
+                labels.add(format!("reject:{}", e.sub));
+                if e.sub == case.expect {
+                    labels.add("reject-expected");
+                    Verdict::Pass { nontrivial }
+                } else {
+                    labels.add(format!("reject-other:{}:{}", case.kind, e.sub));
+                    Verdict::Pass { nontrivial: false }
+                }
+            }
+            Outcome::Accepted(_) => Verdict::Violation {
+                signature: signature(case),
+                detail: format!(
+                    "the compiler accepted a program with a forbidden construct: kind={} variant={} mode={} placement={} depth={} nest={:?} via={:?}; \
+                     the legal twin and the base program are accepted too.\n=== violating project ===\n{}=== planted (violation) ===\n{}{}\n=== planted (legal twin) ===\n{}{}\n",
+                    case.kind,
+                    case.variant,
+                    case.mode,
+                    case.placement,
+                    case.depth,
+                    case.nest,
+                    case.via,
+                    show(&bad_p),
+                    case.stmt.bad,
+                    case.expr.bad,
+                    case.stmt.twin,
+                    case.expr.twin
+                ),
+            },
+            Outcome::Panicked { .. } => Verdict::Discard("compiler-panicked".into()),
+        }
     }
+
+    fn simplify_at(&self, case: &Case, idx: usize) -> Step<Case> {
+        match shrink_step(&case.prog, idx) {
+            Step::End => Step::End,
+            Step::Skip => Step::Skip,
+            Step::Candidate(p) => {
+                let mut c = case.clone();
+                c.prog = p;
+                let (ns, ne) = marker_count(&c);
+                let _ = (ns, ne);
+                c.bad_files = project(&c, &c.prog.source, Which::Bad).files;
+                Step::Candidate(c)
+            }
+        }
+    }
+
+    fn sample(&self, case: &Case) -> serde_json::Value {
+        vcore::truncate_value(
+            serde_json::json!({
+                "kind": case.kind, "variant": case.variant, "mode": case.mode, "placement": case.placement, "depth": case.depth,
+                "nest": case.nest, "via": case.via, "planted_violation": format!("{}{}", case.stmt.bad, case.expr.bad),
+                "planted_twin": format!("{}{}", case.stmt.twin, case.expr.twin), "violating_files": case.bad_files,
+            }),
+            2500,
+        )
+    }
+
     fn rule(&self) -> String {
-        "stub".into()
+        "cases: a random well-typed base program (GenAST core profile, plus fixed planted globals / an imported module) with ONE forbidden \
+         construct planted at a generated statement or expression site (syltmodel::plant) below 0-4 extra generated nesting levels \
+         (if / else / elif / do / case arm / case else / fn closure / pu closure / loop / if-expression / lambda argument). Catalogue: \
+         A assignment (= += -= *= /= by type) to a constant: own `::` local, alias chain of a constant, `::` local / parameter / case binding \
+         of the base program in scope at the site (also captured by closures), planted or base `::` global, imported constant \
+         (ns, ns alias, from, from-as; also the generated program as the imported module), whole-value assignment to a constant blob; \
+         B inside a `pu` function (pure site of the base program, own planted `pu` function at an impure site, or own global `pu`): assignment \
+         (global, outer local, field, import), `:=` / annotated mutable definition, read of a mutable (global, outer local, field, import, in 13 \
+         expression contexts, or at an int expression site of the base), call of an impure function (print, planted fn, fn-typed parameter, local fn \
+         closure, alias, immediate lambda, impure std, import, blob field, prime/arrow forms); C impure function where a `pu` type is declared \
+         (variable, named function, parameter, blob field, list element, return type, assignment, field assignment, map/filter argument, tuple \
+         element, pu-typed argument of the base program). Oracle: base accepted, legal twin (same place, legal variant) accepted, violation => \
+         Rejected, first error a TypeError, zero bytes written; Accepted => violation. Rejected base/twin => discard. non-trivial = nesting \
+         depth >= 1 below the pure function / the constant's scope, or through an alias or an import; distinct by hash of the case"
+            .into()
     }
-    fn health(&self, _s: &vcore::Stats) -> Result<(), String> {
-        Err("check not built yet".into())
+    fn assumptions(&self) -> Vec<String> {
+        vec![
+            "a rejection of the violating variant is attributed to the planted construct because the twin, which differs only in that construct, is accepted; \
+             the TypeError variant is recorded (reject-expected vs reject-other) but any TypeError satisfies the property"
+                .into(),
+            "an `fn` type annotation is treated as 'purity not known': passing an impure function through it to a declared `pu` type counts as \
+             'impure function accepted where a pu type is declared' (known-finding class pu-type/via-fn-annotation, generated only with avoidance off)"
+                .into(),
+        ]
+    }
+
+    fn health(&self, s: &Stats) -> Result<(), String> {
+        if s.evaluations < 1500 {
+            return Ok(());
+        }
+        let n = s.evaluations as f64;
+        let disc: u64 = s.discards.values().sum();
+        if disc as f64 > 0.30 * n {
+            return Err(format!("{} of {} cases discarded: {:?}", disc, s.evaluations, s.discards));
+        }
+        if s.discard("twin-rejected") as f64 > 0.15 * n {
+            return Err(format!("legal twin rejected in {} of {} cases", s.discard("twin-rejected"), s.evaluations));
+        }
+        if s.discard("violation-variant-not-a-type-error") as f64 > 0.01 * n {
+            return Err(format!("planted violation is not even well-formed in {} cases", s.discard("violation-variant-not-a-type-error")));
+        }
+        for k in kinds::KINDS {
+            let c = s.label(&format!("kind:{}", k));
+            if (c as f64) < 0.008 * n {
+                return Err(format!("kind {} (nearly) absent: {} of {}", k, c, s.evaluations));
+            }
+            if *k == "const-import-base" {
+                continue;
+            }
+            for d in 0..=3 {
+                if s.label(&format!("cell:{}:{}", k, d)) == 0 {
+                    return Err(format!("cell {} at depth {} never generated", k, d));
+                }
+            }
+        }
+        for m in ["mode:base-pure", "mode:own-pu", "mode:own-global-pu", "mode:impure-site", "via:alias", "via:import"] {
+            if s.label(m) * 100 < s.evaluations {
+                return Err(format!("{} (nearly) absent: {}", m, s.label(m)));
+            }
+        }
+        let rej: u64 = s.labels.iter().filter(|(k, _)| k.starts_with("reject:")).map(|(_, v)| *v).sum();
+        if rej > 0 && (s.label("reject-expected") as f64) < 0.9 * rej as f64 {
+            return Err(format!("only {} of {} rejections carry the expected TypeError variant", s.label("reject-expected"), rej));
+        }
+        if (s.nontrivial as f64) < 0.4 * n {
+            return Err(format!("only {} of {} cases are non-trivial", s.nontrivial, s.evaluations));
+        }
+        Ok(())
     }
 }
